@@ -1,0 +1,275 @@
+//! Verification hooks. Compiled only with `--cfg arc_swap_verif`; without the flag this module
+//! does not exist and the crate is exactly what it was.
+//!
+//! * [`atomic`]: drop-in `AtomicUsize`/`AtomicPtr` that call a harness-installed hook *before*
+//!   every atomic operation (with the caller's source location, the operation, the orderings, the
+//!   address of the atomic and the operands) and a second hook *after* it (with the value read).
+//!   The operation itself is the core one; the shim is semantically the identity. The before-hook
+//!   may ask a `compare_exchange_weak` to fail spuriously.
+//! * accessors for the debt list (snapshot of all nodes), the calling thread's node and
+//!   transaction counter, and a reset of the list head between executions.
+
+#![allow(missing_docs, clippy::missing_safety_doc)]
+
+use core::sync::atomic::AtomicUsize as CoreUsize;
+use core::sync::atomic::Ordering;
+
+#[derive(Copy, Clone, Debug, Eq, PartialEq)]
+pub enum Op {
+    Load,
+    Store,
+    Swap,
+    CompareExchange,
+    CompareExchangeWeak,
+    FetchAdd,
+    FetchSub,
+}
+
+#[derive(Copy, Clone, Debug)]
+pub struct Event {
+    pub file: &'static str,
+    pub line: u32,
+    pub col: u32,
+    pub op: Op,
+    /// Address of the atomic variable.
+    pub addr: usize,
+    pub ord: Ordering,
+    pub ord_fail: Option<Ordering>,
+    /// Stored value / expected value of a compare-exchange / addend.
+    pub arg: usize,
+    /// New value of a compare-exchange.
+    pub arg2: usize,
+}
+
+/// Before-hook: return `true` to make a `compare_exchange_weak` fail spuriously.
+pub type Before = fn(&Event) -> bool;
+/// After-hook: the value read (previous value for RMWs; for `store` the stored value) and whether
+/// a compare-exchange succeeded.
+pub type After = fn(&Event, usize, bool);
+
+static BEFORE: CoreUsize = CoreUsize::new(0);
+static AFTER: CoreUsize = CoreUsize::new(0);
+
+pub fn set_hooks(before: Option<Before>, after: Option<After>) {
+    BEFORE.store(before.map(|f| f as usize).unwrap_or(0), Ordering::SeqCst);
+    AFTER.store(after.map(|f| f as usize).unwrap_or(0), Ordering::SeqCst);
+}
+
+#[inline]
+fn before(e: &Event) -> bool {
+    let f = BEFORE.load(Ordering::Relaxed);
+    if f == 0 {
+        false
+    } else {
+        let f: Before = unsafe { core::mem::transmute(f) };
+        f(e)
+    }
+}
+
+#[inline]
+fn after(e: &Event, val: usize, ok: bool) {
+    let f = AFTER.load(Ordering::Relaxed);
+    if f != 0 {
+        let f: After = unsafe { core::mem::transmute(f) };
+        f(e, val, ok)
+    }
+}
+
+pub mod atomic {
+    use super::{after, before, Event, Op};
+    use core::panic::Location;
+    use core::sync::atomic::Ordering;
+
+    #[inline]
+    #[track_caller]
+    fn ev(op: Op, addr: usize, ord: Ordering, ord_fail: Option<Ordering>, arg: usize, arg2: usize) -> Event {
+        let loc = Location::caller();
+        Event {
+            file: loc.file(),
+            line: loc.line(),
+            col: loc.column(),
+            op,
+            addr,
+            ord,
+            ord_fail,
+            arg,
+            arg2,
+        }
+    }
+
+    #[derive(Debug, Default)]
+    #[repr(transparent)]
+    pub struct AtomicUsize(pub(crate) core::sync::atomic::AtomicUsize);
+
+    impl AtomicUsize {
+        pub const fn new(v: usize) -> Self {
+            AtomicUsize(core::sync::atomic::AtomicUsize::new(v))
+        }
+        #[inline]
+        fn addr(&self) -> usize {
+            self as *const _ as usize
+        }
+        #[inline]
+        #[track_caller]
+        pub fn load(&self, ord: Ordering) -> usize {
+            let e = ev(Op::Load, self.addr(), ord, None, 0, 0);
+            before(&e);
+            let v = self.0.load(ord);
+            after(&e, v, true);
+            v
+        }
+        #[inline]
+        #[track_caller]
+        pub fn store(&self, v: usize, ord: Ordering) {
+            let e = ev(Op::Store, self.addr(), ord, None, v, 0);
+            before(&e);
+            self.0.store(v, ord);
+            after(&e, v, true);
+        }
+        #[inline]
+        #[track_caller]
+        pub fn swap(&self, v: usize, ord: Ordering) -> usize {
+            let e = ev(Op::Swap, self.addr(), ord, None, v, 0);
+            before(&e);
+            let old = self.0.swap(v, ord);
+            after(&e, old, true);
+            old
+        }
+        #[inline]
+        #[track_caller]
+        pub fn compare_exchange(
+            &self,
+            cur: usize,
+            new: usize,
+            ord: Ordering,
+            fail: Ordering,
+        ) -> Result<usize, usize> {
+            let e = ev(Op::CompareExchange, self.addr(), ord, Some(fail), cur, new);
+            before(&e);
+            let r = self.0.compare_exchange(cur, new, ord, fail);
+            after(&e, r.unwrap_or_else(|v| v), r.is_ok());
+            r
+        }
+        #[inline]
+        #[track_caller]
+        pub fn fetch_add(&self, v: usize, ord: Ordering) -> usize {
+            let e = ev(Op::FetchAdd, self.addr(), ord, None, v, 0);
+            before(&e);
+            let old = self.0.fetch_add(v, ord);
+            after(&e, old, true);
+            old
+        }
+        #[inline]
+        #[track_caller]
+        pub fn fetch_sub(&self, v: usize, ord: Ordering) -> usize {
+            let e = ev(Op::FetchSub, self.addr(), ord, None, v, 0);
+            before(&e);
+            let old = self.0.fetch_sub(v, ord);
+            after(&e, old, true);
+            old
+        }
+    }
+
+    #[derive(Debug)]
+    #[repr(transparent)]
+    pub struct AtomicPtr<T>(pub(crate) core::sync::atomic::AtomicPtr<T>);
+
+    impl<T> AtomicPtr<T> {
+        pub const fn new(p: *mut T) -> Self {
+            AtomicPtr(core::sync::atomic::AtomicPtr::new(p))
+        }
+        #[inline]
+        fn addr(&self) -> usize {
+            self as *const _ as usize
+        }
+        #[inline]
+        pub fn get_mut(&mut self) -> &mut *mut T {
+            self.0.get_mut()
+        }
+        #[inline]
+        #[track_caller]
+        pub fn load(&self, ord: Ordering) -> *mut T {
+            let e = ev(Op::Load, self.addr(), ord, None, 0, 0);
+            before(&e);
+            let v = self.0.load(ord);
+            after(&e, v as usize, true);
+            v
+        }
+        #[inline]
+        #[track_caller]
+        pub fn store(&self, v: *mut T, ord: Ordering) {
+            let e = ev(Op::Store, self.addr(), ord, None, v as usize, 0);
+            before(&e);
+            self.0.store(v, ord);
+            after(&e, v as usize, true);
+        }
+        #[inline]
+        #[track_caller]
+        pub fn swap(&self, v: *mut T, ord: Ordering) -> *mut T {
+            let e = ev(Op::Swap, self.addr(), ord, None, v as usize, 0);
+            before(&e);
+            let old = self.0.swap(v, ord);
+            after(&e, old as usize, true);
+            old
+        }
+        #[inline]
+        #[track_caller]
+        pub fn compare_exchange(
+            &self,
+            cur: *mut T,
+            new: *mut T,
+            ord: Ordering,
+            fail: Ordering,
+        ) -> Result<*mut T, *mut T> {
+            let e = ev(Op::CompareExchange, self.addr(), ord, Some(fail), cur as usize, new as usize);
+            before(&e);
+            let r = self.0.compare_exchange(cur, new, ord, fail);
+            after(&e, r.unwrap_or_else(|v| v) as usize, r.is_ok());
+            r
+        }
+        #[inline]
+        #[track_caller]
+        pub fn compare_exchange_weak(
+            &self,
+            cur: *mut T,
+            new: *mut T,
+            ord: Ordering,
+            fail: Ordering,
+        ) -> Result<*mut T, *mut T> {
+            let e = ev(Op::CompareExchangeWeak, self.addr(), ord, Some(fail), cur as usize, new as usize);
+            if before(&e) {
+                // A spurious failure, as the operation's contract allows: report the current value.
+                let v = self.0.load(fail);
+                after(&e, v as usize, false);
+                return Err(v);
+            }
+            let r = self.0.compare_exchange(cur, new, ord, fail);
+            after(&e, r.unwrap_or_else(|v| v) as usize, r.is_ok());
+            r
+        }
+    }
+}
+
+/// What one debt node looks like right now (read without going through the hooks).
+#[derive(Clone, Debug)]
+pub struct NodeSnapshot {
+    pub addr: usize,
+    /// (address of the atomic, current value) for each field.
+    pub fast: alloc::vec::Vec<(usize, usize)>,
+    pub control: (usize, usize),
+    pub slot: (usize, usize),
+    pub active_addr: (usize, usize),
+    pub handover: (usize, usize),
+    pub space_offer: (usize, usize),
+    pub in_use: (usize, usize),
+    pub active_writers: (usize, usize),
+}
+
+pub use crate::debt::verif_hooks::*;
+
+impl<T: crate::RefCnt, S: crate::strategy::Strategy<T>> crate::ArcSwapAny<T, S> {
+    /// Address of the atomic pointer cell of this container.
+    pub fn verif_storage_addr(&self) -> usize {
+        &self.ptr as *const _ as usize
+    }
+}
